@@ -98,8 +98,9 @@ def build_levelorder(spec, pool, *, typed=False):
         parent, s = queue.pop(0)
         made = []
         for lab, kids in reversed(s):
+            nid = None
             if isinstance(lab, dict):
-                a, k, did = lab["a"], lab.get("k"), lab.get("did")
+                a, k, did, nid = lab["a"], lab.get("k"), lab.get("did"), lab.get("nid")
             elif isinstance(lab, tuple):
                 a, k, did = lab[0], lab[1], None
             else:
@@ -107,6 +108,8 @@ def build_levelorder(spec, pool, *, typed=False):
             kw = {"before": True}
             if did is not None:
                 kw["data_id"] = did
+            if nid is not None:
+                kw["node_id"] = nid
             if typed:
                 kw["kind"] = k or "child"
             n = parent.add(pool.objs[a], **kw)
